@@ -6,8 +6,43 @@ fn data(n: usize, seed: u8) -> Vec<u8> {
     (0..n).map(|i| seed.wrapping_add(i as u8).wrapping_mul(31) | 1).collect()
 }
 
+/// plain append sequences (no rollback) with record sizes below, at and above the 16 KiB write buffer; every record
+/// must read back byte-identical at its returned offset through a fresh reader after sync
+fn sequences() -> Option<String> {
+    for sizes in [vec![10usize, 20, 30], vec![20_000, 28, 20_000], vec![16_375, 1, 16_384, 5], vec![0, 40_000, 0, 3], vec![100, 16_384 - 9, 100]] {
+        for sync_each in [false, true] {
+            let dir = tempfile::tempdir().unwrap();
+            let path = dir.path().join("seg");
+            let mut w = Writer::<1>::create(&path, 1 << 20, 7).unwrap();
+            let mut recs = vec![];
+            for (i, n) in sizes.iter().enumerate() {
+                let d = data(*n, 17 + i as u8);
+                let (o, _) = w.append(&[i as u8], &d).unwrap();
+                recs.push((o, d));
+                if sync_each { w.sync().unwrap(); }
+            }
+            w.sync().unwrap();
+            let mut r = Reader::<1>::open(&path, Some(w.flushed_offset())).unwrap();
+            for (i, (o, d)) in recs.iter().enumerate() {
+                match r.read_record(*o, ReadHint::Random) {
+                    Ok(rec) if &*rec.data == &d[..] && rec.header[0] == i as u8 => {}
+                    other => return Some(format!("append sequence {sizes:?} (sync after each: {sync_each}): record {i} acknowledged at offset {o} reads back as {:?}", other.map(|r| r.data.len()))),
+                }
+            }
+        }
+    }
+    None
+}
+
 fn main() {
     let a: Vec<String> = std::env::args().collect();
+    if a.get(1).map(String::as_str) == Some("sequence") {
+        std::panic::set_hook(Box::new(|_| {}));
+        match sequences() {
+            Some(m) => { println!("REPRODUCED C01 sequence: {m}"); std::process::exit(1); }
+            None => { println!("not reproduced: C01 sequence behaves"); return; }
+        }
+    }
     let g = |i: usize, d: u64| a.get(i).and_then(|s| s.parse::<u64>().ok()).unwrap_or(d);
     let (n1, n2, n3, start) = (g(2, 2) as usize, g(3, 3) as usize, g(4, 1) as usize, g(5, 0));
     let (sync_before, rollback_two) = (g(6, 1) != 0, g(7, 0) != 0);
